@@ -3,7 +3,7 @@ from props._ssm_names import *
 ID = "C04"
 LEVEL = "proof"
 MODULES = ["contracts.comm", "contracts.ssm", "contracts.iocb"]
-FUNCTIONS = CLIENT_CONF + CLIENT_TASK + CLIENT_START + SERVER_TASK + IOCB
+FUNCTIONS = CLIENT_CONF + CLIENT_TASK + CLIENT_LEARNED + CLIENT_START + SERVER_TASK + IOCB
 LEMMAS = []
 MIN_OBLIGATIONS = 150
 BOUNDED = "bounded.c04"
